@@ -150,6 +150,14 @@ theorem prost_status_law (st : PbStatus) (h : WFs st) : prost.decStatus (prost.e
   rw [decodeL2_encL2 _ _ (by decide) hok hb]
   simp [statusOfPb_statusToPb]
 
+theorem kind_ofPb (k : Kind) (vs : List V2) : (ofPb k vs).kind = k := by cases k <;> rfl
+
+theorem prost_kind_law (k : Kind) (b : Bytes) (d : ErrorDetail) (h : prost.decDetail k b = some d) :
+    d.kind = k := by
+  simp only [prost, Option.map_eq_some_iff] at h
+  obtain ⟨vs, _, rfl⟩ := h
+  exact kind_ofPb k vs
+
 /-- prost (as modelled) satisfies the laws the parametric theorems assume -/
 theorem prost_laws : prost.Laws WFd WFs := ⟨prost_detail_law, prost_status_law⟩
 
